@@ -11,11 +11,15 @@ expressible*, and the operations that hand out copies, in Python statement order
                     export_leaf, name setter, new_id
   odml/templates.py TemplateHandler.clone_section (= Section.clone on a cached document)
 
-Three address spaces:
+Four address spaces:
   node  : Nat → Node          objects (Document / Section / Property) by handle
   vcell : Nat → List Item     Python lists holding values: `_values` of a Property, a list returned
                               by `Property.values`, a list the caller passes in as `values`
   tcell : Nat → List String   the inner lists of n-tuple values (`['a', 'b']` of `"(a;b)"`)
+  dcell : Nat → List (Nat × String)   the dicts `_merged_attrs` of Sections (attribute position ↦ the
+                              value `merge` has filled in from the merged Section); `copy.copy` copies the
+                              ADDRESS, so a Section and its clone share one dict until one of them binds
+                              a new one. Cell 0 is the class-level `_merged_attrs = {}` of `BaseSection`.
 An `Item` is an immutable atom or a reference to an inner list, so a shallow copy of a value list
 (`list(self._values)`) shares the inner lists with the original - which is what the property
 "independent" is about.  Ids are natural numbers; `uuid.uuid4()` is `nextId` (contract: fresh).
@@ -51,6 +55,7 @@ structure Node where
   props : List Nat           -- `_props`
   vals : Option Nat          -- address of `_values` (Properties)
   merged : Option Nat        -- `_merged`: a reference that is read, never written through
+  mattrs : Nat := 0          -- address of `_merged_attrs` (Sections): copied by `copy.copy` as an address
   deriving Repr, Inhabited
 
 structure H where
@@ -61,10 +66,13 @@ structure H where
   nV : Nat
   nT : Nat
   nextId : Nat
+  dcell : Nat → List (Nat × String) := fun _ => []   -- the `_merged_attrs` dicts
+  nD : Nat := 0
 
+/-- Nothing but the class attribute `BaseSection._merged_attrs = {}` (cell 0 of `dcell`). -/
 def empty : H :=
   { node := fun _ => default, vcell := fun _ => [], tcell := fun _ => [], nN := 0, nV := 0, nT := 0,
-    nextId := 0 }
+    nextId := 0, dcell := fun _ => [], nD := 1 }
 
 /-! ### Primitive writes -/
 
@@ -88,6 +96,14 @@ def allocV (h : H) (l : List Item) : H × Nat :=
 /-- A new inner (tuple) list. -/
 def allocT (h : H) (l : List String) : H × Nat :=
   ({ h with tcell := fun j => if j = h.nT then l else h.tcell j, nT := h.nT + 1 }, h.nT)
+
+/-- A new dict. -/
+def allocD (h : H) (l : List (Nat × String)) : H × Nat :=
+  ({ h with dcell := fun j => if j = h.nD then l else h.dcell j, nD := h.nD + 1 }, h.nD)
+
+/-- A write INTO a dict (item assignment, `.clear()`). -/
+def updD (h : H) (i : Nat) (f : List (Nat × String) → List (Nat × String)) : H :=
+  { h with dcell := fun j => if j = i then f (h.dcell j) else h.dcell j }
 
 /-- `obj.new_id()`: `str(uuid.uuid4())`. -/
 def newId (h : H) (x : Nat) : H :=
@@ -440,13 +456,105 @@ def valueInnerSet (h : H) (p i j : Nat) (s : String) : H × Option Err :=
   | none => (h, some .attributeError)
   | some c => if c ≥ h.nV then (h, some .typeError) else listInnerSet h c i j s
 
+/-! ### The record of what a merge has filled in (`_merged_attrs`)
+
+`Section._merge` / `Section.unmerge` (odml/section.py) as far as they touch the Section's own attributes
+and the record; statement order of the code. The recursion over the children of the merged Section
+(copies of missing children, removal of equal ones) is C12's `Model/Merge.lean`; here the merged Section
+is one without children, for which these statements are all that is executed. -/
+
+/-- Positions of `definition` and `reference` among the compared attributes of a Section. -/
+def defAttr : Nat := 1
+def refAttr : Nat := 2
+
+/-- The object's own value of attribute `k`; the attribute texts are Python `repr`s, `None` is
+    "no value". -/
+def ownAttr (h : H) (x k : Nat) : Option String :=
+  match (h.node x).attrs[k]? with
+  | some v => if v = "None" then none else some v
+  | none => none
+
+/-- What the Section's `_merged_attrs` holds. -/
+def recOf (h : H) (x : Nat) : List (Nat × String) := h.dcell (h.node x).mattrs
+
+/-- `d[k] = v` on the items of a dict. -/
+def dictSet (l : List (Nat × String)) (k : Nat) (v : String) : List (Nat × String) :=
+  if l.any (fun p => p.1 == k) then l.map (fun p => if p.1 = k then (k, v) else p) else l ++ [(k, v)]
+
+/-- `self._merged_attrs = {}` of `Section.__init__`: a new dict is bound. -/
+def initRecord (h : H) (x : Nat) : H :=
+  let (h1, d) := allocD h []
+  updN h1 x (fun n => { n with mattrs := d })
+
+/-- `if self.<attr> is None and section.<attr> is not None: self.<attr> = section.<attr>;
+    filled["<attr>"] = self.<attr>` with `filled` the dict at `d`. -/
+def fillAttr (h : H) (x s d k : Nat) : H :=
+  match ownAttr h x k, ownAttr h s k with
+  | none, some v =>
+    let h1 := updN h x (fun n => { n with attrs := n.attrs.set k v })
+    updD h1 d (fun l => dictSet l k v)
+  | _, _ => h
+
+/-- `Section._merge(section, strict=False, record)` for a `section` without children:
+    `filled = dict(self._merged_attrs)` is a NEW dict, the two attributes are filled in and noted in it,
+    `if record: self._merged_attrs = filled` BINDS it (the dict bound before is not written), the loop over
+    the children of `section` does nothing, `if record: self._merged = section`. -/
+def mergeAttrs (h : H) (x s : Nat) (record : Bool) : H :=
+  let (h1, d) := allocD h (recOf h x)                                   -- filled = dict(self._merged_attrs)
+  let h2 := fillAttr h1 x s d defAttr
+  let h3 := fillAttr h2 x s d refAttr
+  let h4 := if record then updN h3 x (fun n => { n with mattrs := d }) else h3   -- self._merged_attrs = filled
+  if record then updN h4 x (fun n => { n with merged := some s }) else h4        -- self._merged = section
+
+/-- `for attr, value in self._merged_attrs.items(): if value is not None and getattr(self, attr) == value:
+    setattr(self, attr, None)` -/
+def takeBack (h : H) (x : Nat) : List (Nat × String) → H
+  | [] => h
+  | (k, v) :: rest =>
+    let h1 := if ownAttr h x k = some v then updN h x (fun n => { n with attrs := n.attrs.set k "None" }) else h
+    takeBack h1 x rest
+
+/-- `Section.unmerge(section)` for a `section` without children, from the comment "Take back the
+    definition and the reference" on (no child is removed; `_link` is None): what is recorded and still
+    unchanged is taken back, `self._merged_attrs = {}` BINDS a new empty dict, `self._merged = None`. -/
+def unmergeAttrs (h : H) (x : Nat) : H :=
+  let h1 := takeBack h x (recOf h x)
+  let (h2, d) := allocD h1 []                                           -- self._merged_attrs = {}
+  let h3 := updN h2 x (fun n => { n with mattrs := d })
+  updN h3 x (fun n => { n with merged := none })                        -- self._merged = None
+
+/-- The variants that write INTO the dict that is bound (not the code; seeded changes C11-G: `unmerge` ends
+    with `self._merged_attrs.clear()`, C12-G: `merge` does `self._merged_attrs[attr] = …`). Kept for the
+    counterexample theorems only; `step` does not use them. -/
+def unmergeAttrsInPlace (h : H) (x : Nat) : H :=
+  let h1 := takeBack h x (recOf h x)
+  let h2 := updD h1 (h1.node x).mattrs (fun _ => [])                    -- self._merged_attrs.clear()
+  updN h2 x (fun n => { n with merged := none })
+
+def mergeAttrsInPlace (h : H) (x s : Nat) : H :=
+  let d := (h.node x).mattrs                                            -- self._merged_attrs[attr] = …
+  let h2 := fillAttr h x s d defAttr
+  let h3 := fillAttr h2 x s d refAttr
+  updN h3 x (fun n => { n with merged := some s })
+
+/-- `sec.merge(section, strict=False)` / `sec.unmerge(section)` as operations: both objects are Sections
+    (anything else has no such method or is refused). -/
+def mergeOp (h : H) (x s : Nat) (record : Bool) : H × Option Err :=
+  if (h.node x).kind != .sec || decide (s ≥ h.nN) || (h.node s).kind != .sec then (h, some .attributeError)
+  else (mergeAttrs h x s record, none)
+
+def unmergeOp (h : H) (x : Nat) : H × Option Err :=
+  if (h.node x).kind != .sec then (h, some .attributeError) else (unmergeAttrs h x, none)
+
 /-- `Section(name)` / `Property(name, values)`: a new detached object. -/
 def newObj (h : H) (k : Kind) (name : String) (attrs : List String) (vals : List Lit) : H × Nat :=
   let id := h.nextId
   let h0 := { h with nextId := h.nextId + 1 }
   let (h1, x) := allocN h0 { kind := k, name := name, id := id, attrs := attrs, parent := none,
-                             secs := [], props := [], vals := none, merged := none }
-  if k = .prop then (setValuesLits h1 x vals, x) else (h1, x)
+                             secs := [], props := [], vals := none, merged := none, mattrs := 0 }
+  if k = .prop then (setValuesLits h1 x vals, x)
+  else if k = .sec then (initRecord h1 x, x)                 -- Section.__init__: self._merged_attrs = {}
+  else (h1, x)
 
 /-- A list the caller builds (`lst = ["(a;b)", …]` in converted form). -/
 def newList (h : H) (vals : List Lit) : H × Nat :=
@@ -474,6 +582,8 @@ inductive Op where
   | rename (x : Nat) (new : String)
   | setAttr (x : Nat) (i : Nat) (v : String)
   | newId (x : Nat)
+  | mergeAttrs (x s : Nat) (record : Bool)     -- `x._merge(s, False, record)`, `s` without children
+  | unmergeAttrs (x : Nat)                     -- the attribute part of `x.unmerge(…)`
   deriving Repr
 
 /-- The objects an operation is applied to. -/
@@ -492,6 +602,8 @@ def Op.objs : Op → List Nat
   | .rename x _ => [x]
   | .setAttr x _ _ => [x]
   | .newId x => [x]
+  | .mergeAttrs x _ _ => [x]                   -- the merged Section is only read
+  | .unmergeAttrs x => [x]
   | _ => []
 
 /-- The caller-held lists an operation is applied to. -/
@@ -543,6 +655,8 @@ def step (h : H) (op : Op) : H × Res :=
   | .rename x new => optErr (rename h x new)
   | .setAttr x i v => (setAttr h x i v, .ok 0)
   | .newId x => (newId h x, .ok 0)
+  | .mergeAttrs x s record => optErr (mergeOp h x s record)
+  | .unmergeAttrs x => optErr (unmergeOp h x)
 
 def run (h : H) (ops : List Op) : H := ops.foldl (fun h op => (step h op).1) h
 
@@ -551,13 +665,6 @@ def run (h : H) (ops : List Op) : H := ops.foldl (fun h op => (step h op).1) h
 /-- Position of `repository` among the compared attributes of a Document and of a Section (the
     harness lists them in this order for both kinds). -/
 def repoAttr : Nat := 3
-
-/-- The object's own value of attribute `k`; the attribute texts are Python `repr`s, `None` is
-    "no value". -/
-def ownAttr (h : H) (x k : Nat) : Option String :=
-  match (h.node x).attrs[k]? with
-  | some v => if v = "None" then none else some v
-  | none => none
 
 /-- `Section.get_repository()`: `if self._repository is None and self.parent is not None: return
     self.parent.get_repository()`, otherwise the object's own value (`Sectionable.get_repository`
